@@ -262,6 +262,21 @@ def failed_ops(seed):
                    ('metadata update with an unserialisable value', lambda: a.metadata.update({'k': object()})),
                    ('readcode of an unknown language', lambda: a.readcode('perl')),
                    ('archive with a bad compression type', lambda: a.archive(compressiontype='zip'))]
+            def transient(name, action):
+                # the description / data file is unreadable for a moment: the call fails while OPENING the array
+                src = os.path.join(root, 'a', name)
+                os.rename(src, src + '.away')
+                try:
+                    action()
+                finally:
+                    os.rename(src + '.away', src)
+            ops += [('indexing while arraydescription.json is missing', lambda: transient('arraydescription.json', lambda: a[0])),
+                    ('assignment while arraydescription.json is missing',
+                     lambda: transient('arraydescription.json', lambda: a.__setitem__(0, 5))),
+                    ('open_array() while arrayvalues.bin is missing',
+                     lambda: transient('arrayvalues.bin', lambda: a.open_array().__enter__())),
+                    ('iterchunks while arrayvalues.bin is missing',
+                     lambda: transient('arrayvalues.bin', lambda: list(a.iterchunks(1000))))]
             for nm, fn in ops:
                 try:
                     fn()
@@ -270,6 +285,17 @@ def failed_ops(seed):
                     held.append(e)
                     res = type(e).__name__
                 os.write(w, (json.dumps({'op': nm, 'raised': res, 'open': open_handles(dp)}) + '\n').encode())
+            # after all those failures ordinary operations must still open and close the array properly
+            for nm, fn in [('read after the failures', lambda: a[5]), ('slice after the failures', lambda: a[10:20]),
+                           ('assignment after the failures', lambda: a.__setitem__(3, 3)),
+                           ('context after the failures', lambda: _ctx(a))]:
+                try:
+                    fn()
+                    res = 'ok'
+                except Exception as e:
+                    held.append(e)
+                    res = type(e).__name__
+                os.write(w, (json.dumps({'op': nm, 'raised': res, 'open': open_handles(dp), 'mustwork': True}) + '\n').encode())
             # what a leaked map leads to
             darr.truncate_array(a, 10)
             os.write(w, (json.dumps({'op': 'truncate after the failures', 'len': len(a)}) + '\n').encode())
@@ -298,6 +324,8 @@ def failed_ops(seed):
                         'got': '%d left open (exception object still referenced)' % ln['open']})
         if 'exception' in ln:
             bad.append({'op': 'harness', 'expected': 'runs', 'got': ln['exception']})
+        if ln.get('mustwork') and ln.get('raised') != 'ok':
+            bad.append({'op': 'failed operation: ' + ln['op'], 'expected': 'works', 'got': ln['raised']})
     if os.WIFSIGNALED(status):
         bad.append({'op': 'truncate and read after a failed operation', 'expected': 'no crash',
                     'got': _sg.Signals(os.WTERMSIG(status)).name, 'last': lines[-1] if lines else None})
@@ -305,6 +333,11 @@ def failed_ops(seed):
         bad.append({'op': 'truncate and read after a failed operation', 'expected': 'a[:] = first ten values',
                     'got': lines[-1] if lines else None})
     return len(lines), bad
+
+
+def _ctx(a):
+    with a.open_array():
+        a[1]
 
 
 def _consume(a):
